@@ -517,3 +517,78 @@ def tree_6(ctx, rep):
            'update can return the module before the collected nodes were written back into the tree')
     rep.ob('TREE-6', DIFF, up.qual, 'returns self._module', bool(rets) and all(norm(r.ast.value) == 'self._module' for r in rets),
            'update does not return the updated module')
+
+
+# ---------------------------------------------------------------------------
+# TREE-9: whatever is stored in a slot of a tree class can be pickled
+# ---------------------------------------------------------------------------
+UNPICKLABLE_CALLS = {
+    'MappingProxyType': 'mappingproxy objects cannot be pickled',
+    'types.MappingProxyType': 'mappingproxy objects cannot be pickled',
+    'iter': 'iterators cannot be pickled reliably', 'zip': 'zip objects cannot be relied on', 'map': 'map objects are lazy iterators',
+    'filter': 'filter objects are lazy iterators', 'reversed': 'reverse iterators', 'enumerate': 'enumerate objects',
+    'open': 'file objects cannot be pickled', 'threading.Lock': 'locks cannot be pickled', 'threading.RLock': 'locks cannot be pickled',
+    'Lock': 'locks cannot be pickled', 'RLock': 'locks cannot be pickled',
+    'weakref.ref': 'weak references cannot be pickled', 'weakref.proxy': 'weak references cannot be pickled',
+    'itertools.chain': 'lazy iterator', 'itertools.count': 'lazy iterator',
+}
+
+
+def _unpicklable(f, e, depth=0):
+    """reason when expression ``e`` evaluates to a value the pickle module rejects (or only accepts by accident)"""
+    if depth > 2:
+        return None
+    if isinstance(e, ast.Lambda):
+        return 'lambda functions cannot be pickled'
+    if isinstance(e, ast.GeneratorExp):
+        return 'generator objects cannot be pickled'
+    if isinstance(e, ast.Call):
+        name = norm(e.func)
+        if name in UNPICKLABLE_CALLS:
+            return UNPICKLABLE_CALLS[name]
+        if isinstance(e.func, ast.Attribute) and e.func.attr in ('keys', 'values', 'items') and not e.args:
+            return 'dict views cannot be pickled'
+    if isinstance(e, ast.Name):
+        # a nested function / a local assigned from something unpicklable
+        for n in walk_own(f.node):
+            if isinstance(n, (ast.FunctionDef, ast.AsyncFunctionDef)) and n.name == e.id and n is not f.node:
+                return 'locally defined functions cannot be pickled'
+        vals = [n.value for n in walk_own(f.node) if isinstance(n, ast.Assign)
+                and any(isinstance(t, ast.Name) and t.id == e.id for t in n.targets)]
+        for v in vals:
+            r = _unpicklable(f, v, depth + 1)
+            if r:
+                return r
+    if isinstance(e, ast.IfExp):
+        return _unpicklable(f, e.body, depth + 1) or _unpicklable(f, e.orelse, depth + 1)
+    return None
+
+
+def tree_9(ctx, rep):
+    rep.rule('TREE-9', 'every value stored in an instance attribute of a tree class (a slot that is pickled with the tree) is of '
+                       'a picklable kind: no mappingproxy, generator, lambda, local function, iterator, dict view, lock, file')
+    root, classes = tree_hierarchy(ctx)
+    slots = set()
+    for c in classes:
+        for k in c.mro:
+            if isinstance(k, Cls) and k.slots:
+                slots |= set(k.slots)
+    n_sites = 0
+    for rel in (TREE, PYTREE, DIFF, 'parso/parser.py', 'parso/python/parser.py'):
+        mod = ctx.prog.mod(rel)
+        for f in mod.funcs.values():
+            for n in walk_own(f.node):
+                if not isinstance(n, ast.Assign):
+                    continue
+                for t in n.targets:
+                    for sub in ([t] if not isinstance(t, (ast.Tuple, ast.List)) else t.elts):
+                        if isinstance(sub, ast.Attribute) and sub.attr in slots and sub.attr not in ('parent',):
+                            owner = f.cls
+                            in_tree_class = owner is not None and owner in classes
+                            if rel in (TREE, PYTREE) and not in_tree_class and not isinstance(sub.value, ast.Name):
+                                continue
+                            n_sites += 1
+                            why = _unpicklable(f, n.value)
+                            rep.ob('TREE-9', rel, f.qual, norm(n), why is None,
+                                   'the value stored in slot %s is pickled with the tree: %s' % (sub.attr, why))
+    rep.minimum('TREE-9', 10)
